@@ -34,15 +34,125 @@ theorem mangle_charset (name : Bytes) : ∀ c ∈ mangleName name, isAlnum c = t
 theorem mangle_starts_with_prefix (name : Bytes) : (mangleName name).take 5 = symbolPrefix := by
   simp [mangleName, symbolPrefix]
 
-/-- `{hash:032X}` digits are upper-case hex digits. -/
-theorem hashSuffix_charset (h : BitVec 128) : ∀ c ∈ hashSuffix h, isAlnum c = true ∨ c = 95 := by
-  intro c hc
-  simp only [hashSuffix, hashHex, List.mem_cons, List.mem_map, List.mem_range] at hc
-  rcases hc with h1 | h1 | ⟨i, _, hi⟩
-  · right; exact h1
-  · left; rw [h1]; decide
-  · left
-    rw [← hi]; unfold hashNibble
-    exact (hexDigit_of_nibble _ (Nat.mod_lt _ (by decide))).1
+/-- The shortened form also stays inside the character set (`_H` + 32 upper-case hex digits). -/
+theorem capped_charset (name : Bytes) (m : Nat) (r : Bytes) (h : mangleNameWithMaxLen name m = some r) :
+    ∀ c ∈ r, isAlnum c = true ∨ c = 95 := by
+  unfold mangleNameWithMaxLen at h
+  by_cases hm : m < hashSuffixLen
+  · simp [hm] at h
+  · simp only [hm, if_false] at h
+    by_cases hfit : (mangleName name).length ≤ m
+    · simp only [hfit, if_true, Option.some.injEq] at h
+      subst h; exact mangle_charset name
+    · simp only [hfit, if_false, Option.some.injEq] at h
+      subst h
+      intro c hc
+      rcases List.mem_append.mp hc with hc | hc
+      · exact mangle_charset name c (List.mem_of_mem_take hc)
+      · simp only [hashSuffix, hashHex, List.mem_cons] at hc
+        rcases hc with hc | hc | hc
+        · right; exact hc
+        · left; rw [hc]; decide
+        · left; exact (hexDigitsN_charset _ _ c hc).1
+
+/-- "stays within the length limit": any cap of at least 34 is honoured, whatever the name. -/
+theorem capped_length (name : Bytes) (m : Nat) (hm : 34 ≤ m) :
+    ∃ r, mangleNameWithMaxLen name m = some r ∧ r.length ≤ m := by
+  unfold mangleNameWithMaxLen
+  have hm' : ¬ m < hashSuffixLen := by unfold hashSuffixLen; omega
+  simp only [hm', if_false]
+  by_cases hfit : (mangleName name).length ≤ m
+  · exact ⟨_, by simp [hfit], hfit⟩
+  · refine ⟨_, by simp only [hfit, if_false]; rfl, ?_⟩
+    simp only [List.length_append, List.length_take, hashSuffix_length]
+    unfold hashSuffixLen; omega
+
+/-- A cap below 34 is refused (the `assert!`), never silently mis-shortened. -/
+theorem capped_refused (name : Bytes) (m : Nat) (hm : m < 34) : mangleNameWithMaxLen name m = none := by
+  unfold mangleNameWithMaxLen; simp [hashSuffixLen, hm]
+
+/-- "when not shortened -- demangles back to the original name". -/
+theorem capped_unshortened_demangles (name : Bytes) (m : Nat) (hm : 34 ≤ m) (hfit : ¬ shortened name m) :
+    ∃ r, mangleNameWithMaxLen name m = some r ∧ demangleBytes r = some name := by
+  unfold shortened at hfit
+  have hm' : ¬ m < hashSuffixLen := by unfold hashSuffixLen; omega
+  refine ⟨mangleName name, ?_, demangle_mangle name⟩
+  unfold mangleNameWithMaxLen
+  simp [hm', Nat.le_of_not_lt hfit]
+
+/-- shape of a shortened symbol when the cap leaves room for the prefix `dora_` (39 ≤ m; dora uses 200) -/
+theorem capped_shortened_shape (name : Bytes) (m : Nat) (hm : 39 ≤ m) (hs : shortened name m) :
+    mangleNameWithMaxLen name m =
+      some (symbolPrefix ++ ((mangleBody name).take (m - 39) ++ hashSuffix (fnv1a128 (mangleName name)))) := by
+  unfold shortened at hs
+  have hm' : ¬ m < hashSuffixLen := by unfold hashSuffixLen; omega
+  unfold mangleNameWithMaxLen
+  simp only [hm', if_false, Nat.not_le.mpr hs]
+  have : m - hashSuffixLen = 5 + (m - 39) := by unfold hashSuffixLen; omega
+  rw [this]
+  have t5 : ∀ (k : Nat) (l : Bytes), List.take (5 + k) (100 :: 111 :: 114 :: 97 :: 95 :: l) =
+      100 :: 111 :: 114 :: 97 :: 95 :: List.take k l := by
+    intro k l
+    rw [show 5 + k = k + 1 + 1 + 1 + 1 + 1 by omega]
+    simp only [List.take_succ_cons]
+  simp [mangleName, symbolPrefix, t5]
+
+/-- "Shortening ... keeps different names different", part 1: a shortened symbol never equals an
+unshortened one (`_H` cannot occur in an unshortened symbol after the prefix). -/
+theorem short_long_disjoint (a b : Bytes) (m : Nat) (hm : 39 ≤ m)
+    (ha : shortened a m) (hb : ¬ shortened b m) :
+    mangleNameWithMaxLen a m ≠ mangleNameWithMaxLen b m := by
+  intro h
+  rw [capped_shortened_shape a m hm ha] at h
+  obtain ⟨r, hr, _⟩ := capped_unshortened_demangles b m (by omega) hb
+  have hb' : mangleNameWithMaxLen b m = some (mangleName b) := by
+    unfold shortened at hb
+    have hm' : ¬ m < hashSuffixLen := by unfold hashSuffixLen; omega
+    unfold mangleNameWithMaxLen; simp [hm', Nat.le_of_not_lt hb]
+  rw [hb'] at h
+  have h2 := Option.some.inj h
+  unfold mangleName at h2
+  have h3 := List.append_cancel_left h2
+  have e1 := escOK_mangleBody b
+  rw [← h3] at e1
+  simp only [hashSuffix] at e1
+  rw [escOK_marker] at e1
+  exact Bool.false_ne_true e1
+
+/-- part 2: two shortened symbols are equal exactly when the kept prefixes agree AND the 128-bit
+FNV-1a hashes of the full symbols agree. (No length-capped scheme can be injective on all names; this is
+the exact collision condition.) -/
+theorem shortened_eq_iff (a b : Bytes) (m : Nat) (hm : 39 ≤ m) (ha : shortened a m) (hb : shortened b m) :
+    mangleNameWithMaxLen a m = mangleNameWithMaxLen b m ↔
+      ((mangleBody a).take (m - 39) = (mangleBody b).take (m - 39) ∧
+        fnv1a128 (mangleName a) = fnv1a128 (mangleName b)) := by
+  rw [capped_shortened_shape a m hm ha, capped_shortened_shape b m hm hb]
+  unfold shortened at ha hb
+  have la : ((mangleBody a).take (m - 39)).length = m - 39 := by
+    simp [mangleName, symbolPrefix] at ha; simp; omega
+  have lb : ((mangleBody b).take (m - 39)).length = m - 39 := by
+    simp [mangleName, symbolPrefix] at hb; simp; omega
+  constructor
+  · intro h
+    have h2 := List.append_cancel_left (Option.some.inj h)
+    have h3 := List.append_inj h2 (by rw [la, lb])
+    refine ⟨h3.1, ?_⟩
+    have h4 := h3.2
+    simp only [hashSuffix, List.cons.injEq, true_and] at h4
+    exact hashHex_injective _ _ h4
+  · rintro ⟨h1, h2⟩
+    rw [h1, h2]
+
+/-- part 3: names whose (mangled) symbols have the same length and differ in exactly one byte always
+get different hashes, hence different shortened symbols — the FNV-1a step is a bijection of the state. -/
+theorem fnv_one_byte_diff (pre suf : Bytes) (b1 b2 : UInt8) (hne : b1 ≠ b2) :
+    fnv1a128 (pre ++ b1 :: suf) ≠ fnv1a128 (pre ++ b2 :: suf) := by
+  intro h
+  unfold fnv1a128 at h
+  simp only [List.foldl_append, List.foldl_cons] at h
+  exact hne (fnvStep_byte_injective _ _ _ (fnv_foldl_injective suf _ _ h))
+
+example : shortened (List.replicate 100 0x3a) 200 ∧ ¬ shortened [0x61] 200 := by
+  constructor <;> simp [shortened, mangleName, symbolPrefix, mangleBody] <;> decide
 
 end Dora.Symbol.C19
